@@ -33,6 +33,15 @@ def plan(plan, tier, seed):
     except AnchorLost as e:
         plan.anchor_errors.append((n6, str(e)))
     plan.dropped.append(vC18.output_cols_fn.__doc__.strip())
+    n8 = "C18.verus.build_joined_table.common_columns_by_name"
+    plan.ob(n8, "verus", "proved", functions=["TableJoinFxn::build_joined_table (from `let rhs_name_to_id` to `let mut output_cols`)"],
+            what="for every pair of column-name tables (entries in any iteration order): the key columns are, for each lhs column whose NAME also names an rhs column, the pair (that lhs column, the rhs column the name index gives for that name) and nothing else; common_lhs / common_rhs are exactly the first / second members of those pairs")
+    try:
+        plan.verus.append(VerusUnit("c18_common_cols", vC18.common_unit(text), {"common_columns": n8}, ["canary_c18_common"]))
+    except AnchorLost as e:
+        plan.anchor_errors.append((n8, str(e)))
+    plan.dropped.append(vC18.common_cols_fn.__doc__.strip())
+    plan.assumptions.append("common columns: the HashMap collected from (name, id) pairs maps a name to AN id carrying it and misses only names no entry carries (std HashMap / collect; contracts in units/vC18.py COMMON_MODEL, named `inv`, not defined)")
     n7 = "C18.verus.TableAccessScalarF.solve"
     plan.ob(n7, "verus", "proved", functions=["src/interpreter/src/stdlib/access/table.rs: TableAccessScalarF::solve"],
             what="selecting ONE table row by a scalar index: the record holds, for every column, the element of exactly that row; an index that addresses no row (0, beyond the last row) is an error (kernel panic), never another row")
@@ -73,5 +82,5 @@ def plan(plan, tier, seed):
         "table columns modelled as contracts/common/matmodel.rs column vectors of u64; Matrix::index1d / set_index1d / resize_vertically as stated in the model (index(ix-1) / v[i] = x with their panics as early None; resize gives the requested length)",
         "the contract lists rows in the order the code produces them (stronger than the property's multiset): a reordering that keeps the multiset would fail this obligation",
     ]
-    plan.undecided_clauses += ["C18: discovery of the common columns by name, the union of columns and which kinds become optional (make_optional_kind), that padded cells hold the empty value, scalar row index (TableAccessScalar), table literal construction; join results are not re-evaluated on step (solve swallows errors)"]
+    plan.undecided_clauses += ["C18: make_optional_kind itself, that the name index behaves as std documents (assumed), table literal construction, the range / mask row selections' fast paths if any are added; join results are not re-evaluated on step (solve swallows errors)"]
     plan.level = "proof"
